@@ -147,3 +147,10 @@ def plural_table(locales, counts):
         raise Inconclusive("plural table probe failed")
     _plural_cache[key] = json.loads(p.stdout)
     return _plural_cache[key]
+
+
+def runtime_probe():
+    key = ("rt",)
+    if key not in _built:
+        _built[key] = cargo_build("runtime_probe", release=True)
+    return _built[key]
